@@ -18,6 +18,7 @@
 -/
 import ASV.Model.Loc
 import ASV.Model.ProtDna
+import ASV.Model.Lookup
 import ASV.Generated.Orf
 namespace ASV.Orf
 open ASV
@@ -202,6 +203,28 @@ def findAllOrfs (rec : Seq) (cross : Bool) (parts : List (Int × Int × List Gen
     Option (List Loc) :=
   (orfAreas rec.length cross parts minLen pad).bind (scanAreas rec minLen)
 
+/-- what the gap search reads off a CDS feature: `cds.location.start`, `cds.location.end` -/
+def geneOf (g : Lookup.Gene) : Gene := ⟨g.loc.start, g.loc.end⟩
+
+/-- the gene lists `find_all_orfs` works with, obtained from the record itself (C08's model of
+    `Record.get_cds_features_within_location`): `genes` = `record.get_cds_features()` in record
+    order, `area` = `area.location` or `none`.  Returns `(area.crosses_origin(), parts)`. -/
+def recordParts (L : Int) (genes : List Lookup.Gene) (area : Option Loc) :
+    Bool × List (Int × Int × List Gene) :=
+  match area with
+  | none => (false, [(0, L, genes.map geneOf)])
+  | some a =>
+    if Lookup.crosses a then
+      (true, a.parts.map fun p => (p.lo, p.hi, (Lookup.within genes (.simple p) true).map geneOf))
+    else (false, [(a.start, a.end, (Lookup.within genes a true).map geneOf)])
+
+/-- `find_all_orfs(record, area, min_length, max_overlap)` on a record given by its sequence and
+    its CDS features -/
+def findAllOrfsRec (rec : Seq) (genes : List Lookup.Gene) (area : Option Loc) (minLen pad : Int) :
+    Option (List Loc) :=
+  let rp := recordParts rec.length genes area
+  findAllOrfs rec rp.1 rp.2 minLen pad
+
 /-! ### `create_feature_from_location`: the default label -/
 
 def zeroPad (digits : Nat) (s : String) : String :=
@@ -219,6 +242,56 @@ def orfLabel (recLen : Nat) (l : Loc) : String :=
     let (a, b) := if l.strand == .rev then (last, p) else (p, last)
     "allorf_" ++ fmtInt digits (a.lo + 1) ++ "_" ++ fmtInt digits b.hi
   | _ => "allorf_" ++ fmtInt digits (l.start + 1) ++ "_" ++ fmtInt digits l.end
+
+/-! ### the translation of the new feature
+
+  `Record.get_aa_translation_from_location` and the `M` replacement of
+  `create_feature_from_location`, for codons over upper/lower-case ACGT.  Biopython's
+  `Seq.translate(table=id)` walks `range(0, n - n % 3, 3)`, looks the upper-cased codon up in the
+  table's forward table, and on a stop codon stops (`to_stop`) or emits `*`; any other codon
+  (ambiguity codes: Biopython's ambiguous table decides) is outside this model: `none`.  The
+  forward table and stop codons are regenerated from `Bio.Data.CodonTable` on every run. -/
+
+/-- `for i in range(0, n - n % 3, 3): codon = sequence[i:i+3]` -/
+def codonsOf (x : Seq) : List Seq := (List.range (x.length / 3)).map fun i => codonAt x (3 * i)
+
+/-- `forward_table[codon]` -/
+def lookupAa (tbl : List (Seq × Char)) (c : Seq) : Option Char := (tbl.find? fun p => p.1 == c).map (·.2)
+
+/-- the codon loop of `_translate_str` -/
+def translateCodons (tbl : List (Seq × Char)) (stops : List Seq) (toStop : Bool) : List Seq → Option (List Char)
+  | [] => some []
+  | c :: cs =>
+    match lookupAa tbl c with
+    | some aa => (translateCodons tbl stops toStop cs).map (aa :: ·)
+    | none =>
+      if stops.contains c then
+        (if toStop then some [] else (translateCodons tbl stops toStop cs).map ('*' :: ·))
+      else none
+
+/-- `Seq.translate(to_stop=…, table=…)` -/
+def bioTranslate (tbl : List (Seq × Char)) (stops : List Seq) (toStop : Bool) (x : Seq) : Option (List Char) :=
+  translateCodons tbl stops toStop (codonsOf (upper x))
+
+/-- `for invalid in "*BJOUZ": string_version = string_version.replace(invalid, "X")` -/
+def replaceInvalid (aa : List Char) : List Char :=
+  aa.map fun c => if ['*', 'B', 'J', 'O', 'U', 'Z'].contains c then 'X' else c
+
+/-- `Record.get_aa_translation_from_location` from the extracted nucleotides on (the explicit
+    trimming to whole codons is what the codon loop does anyway) -/
+def aaTranslation (tbl : List (Seq × Char)) (stops : List Seq) (extracted : Seq) : Option (List Char) :=
+  let x := extracted.filter (· != '-')
+  match bioTranslate tbl stops true x with
+  | none => none
+  | some [] => (bioTranslate tbl stops false x).map replaceInvalid   -- "go past stop codons"
+  | some aa => some (replaceInvalid aa)
+
+/-- `create_feature_from_location`: "always start with methionine"; `none` also stands for the
+    `IndexError` on an empty translation -/
+def featureTranslation (tbl : List (Seq × Char)) (stops : List Seq) (extracted : Seq) : Option (List Char) :=
+  match aaTranslation tbl stops extracted with
+  | some (a :: rest) => some (if a != 'M' then 'M' :: rest else a :: rest)
+  | _ => none
 
 /-! ### `get_trimmed_orf` (search for the latest admissible start codon)
 
